@@ -270,7 +270,8 @@ def transition_order(ctx):
         is_copy = (isinstance(a, ast.Subscript) and dotted(a.value) == RE and isinstance(a.slice, ast.Slice)
                    and a.slice.lower is None and a.slice.upper is None) or \
             (isinstance(a, ast.Call) and call_name(a) == "list" and dotted(a.args[0]) == RE)
-        ctx.check(is_copy, "T3-trans", rx[0].ast, "framer.rexit(copy of %s): %s" % (RE, src(a)),
+        inplace = bool(FuncView(ctx, ctx.fn("framing", "Framer.rexit")).call_nodes("rexits.reverse"))
+        ctx.check(is_copy or not inplace, "T3-trans", rx[0].ast, "framer.rexit(copy of %s): %s" % (RE, src(a)),
                   "rexit reverses its argument in place, so it must get a copy; otherwise renter would run "
                   "bottom-up instead of top-down")
         ctx.check(dotted(arg0("framer.renter")) == RE, "T3-trans", rn[0].ast, "framer.renter(%s)" % RE, "renter gets reexens in top-down order")
@@ -784,3 +785,24 @@ def suspender(ctx):
     raises = [n for n in B.cfg.nodes if n.kind == "raise"]
     ctx.check(bool(t) and any(B.dominated_by_edge([r], t[0], "T") for r in raises), "T1-buildaux", ba,
               "if clone and needs: raise ParseError", "a cloned auxiliary cannot be conditional")
+
+
+def act_clone_preserves_class(ctx, rule):
+    """Act.clone must return an object of the receiver's own class (a negated need is an Nact, a subclass of Act: a clone
+    built with the literal base-class constructor silently drops the `not`)."""
+    ac = ctx.fn("acting", "Act.clone")
+    A = FuncView(ctx, ac)
+    rets = [n for n in A.cfg.nodes if n.kind == "return" and n.ast.value is not None]
+    A.need(rets, "return of the clone")
+    ok = True
+    shapes = []
+    for r in rets:
+        v = A.sym(r.ast.value, r)
+        shapes.append(src(v)[:60])
+        good = isinstance(v, ast.Call) and (
+            (call_name(v) in ("copy.deepcopy", "deepcopy", "copy.copy") and len(v.args) >= 1 and dotted(v.args[0]) == "self") or
+            dotted(v.func) in ("self.__class__", "type(self)") or
+            (isinstance(v.func, ast.Call) and call_name(v.func) == "type" and len(v.func.args) == 1 and dotted(v.func.args[0]) == "self"))
+        ok = ok and good
+    ctx.check(ok, rule, ac, "Act.clone returns a copy of the receiver's own class: %s" % shapes,
+              "the clone of a negated need (Nact) built as a plain Act evaluates the condition un-negated in every cloned framer")
